@@ -155,7 +155,7 @@ func init() {
 			for i := 0; i < env.Pick(2500, 30000); i++ {
 				k := 1 + r.Intn(6)
 				maxU := 6
-				if r.Intn(6) == 0 {
+				if r.Intn(4) == 0 {
 					k = 7 + r.Intn(2)
 					maxU = k
 				}
